@@ -117,6 +117,87 @@ def rule_state(ctx):
     gw = [q for q, v in ctx.eff.global_writes.items() if v]
     ctx.check(not gw, 'R08.3/no-global-writes', 'mchap/**::global', f"{len(ctx.prog.funcs)} functions scanned, none declares `global`",
               f"functions write module globals: {gw}")
+    # module-level containers filled from inside a function are module state just as much (a memo dict, a list that grows), with or
+    # without a `global` statement; the detector is checked against a built-in example
+    def module_state_writes(m, fn):
+        shadow = {x.arg for x in fn.args.posonlyargs + fn.args.args + fn.args.kwonlyargs}
+        for n in ast.walk(fn):
+            if isinstance(n, ast.Name) and isinstance(n.ctx, ast.Store):
+                shadow.add(n.id)
+        mods = {k for k in m.consts if k not in shadow}
+        out = []
+        for n in ast.walk(fn):
+            tgt = None
+            if isinstance(n, (ast.Assign, ast.AugAssign)):
+                for t in (n.targets if isinstance(n, ast.Assign) else [n.target]):
+                    if isinstance(t, ast.Subscript):
+                        r_ = t.value
+                        while isinstance(r_, (ast.Subscript, ast.Attribute)):
+                            r_ = r_.value
+                        if isinstance(r_, ast.Name) and r_.id in mods:
+                            tgt = r_.id
+            elif isinstance(n, ast.Call) and isinstance(n.func, ast.Attribute) and isinstance(n.func.value, ast.Name) and n.func.value.id in mods \
+                    and n.func.attr in ('append', 'extend', 'update', 'setdefault', 'add', 'insert', 'pop', 'clear', 'popitem'):
+                tgt = n.func.value.id
+            if tgt:
+                out.append((tgt, n.lineno))
+        return out
+    ex = ast.parse("_MEMO = {}\ndef f(k):\n    if k not in _MEMO:\n        _MEMO[k] = k * 2\n    return _MEMO[k]\n")
+    class _M:
+        consts = {'_MEMO': ex.body[0].value}
+    if not module_state_writes(_M, ex.body[1]):
+        raise AnalysisError("module-state detector no longer matches its positive example")
+    ms = []
+    for q, f in ctx.prog.funcs.items():
+        for name, ln in module_state_writes(f.module, f.node):
+            ms.append(f"{q} fills {name} (line {ln})")
+    ctx.check(not ms, 'R08.3/no-module-state', 'mchap/**::module containers', f"{len(ctx.prog.funcs)} functions scanned, none stores into a module-level container (detector self-test passed)",
+              f"module-level containers are filled at run time, so a result can depend on what the process did before: {ms}")
+    # the fit() methods leave their arguments alone (a fit that writes into the caller's `initial` makes the next fit differ).
+    # Decided on terms: an array handed to a parameter that the callee mutates (effect summary), or stored into directly, must not be
+    # rooted in a parameter of fit() on any arm of the decisions that lead there.
+    def param_roots(t, depth=0):
+        out = set()
+        stack = [t]
+        while stack:
+            x = stack.pop()
+            if not isinstance(x, tuple) or not x:
+                continue
+            h = x[0]
+            if h == 'param':
+                out.add(x[1])
+            elif h in ('upd', 'havoc'):
+                stack.append(x[1])
+            elif h in ('after', 'carried'):
+                stack.append(x[2] if len(x) > 2 else None)
+            elif h == 'phi':
+                stack += [x[2], x[3]]
+            elif h == 'idx':
+                stack.append(x[1])          # a row / slice of an array is a view of it
+            elif h == 'call' and x[1] in ('numpy.asarray', 'numpy.asanyarray') and x[2]:
+                stack.append(x[2][0])
+        return out
+    from ..model import bind_args
+    for fq in FITS:
+        f = ctx.func(fq)
+        r = ctx.recon(fq)
+        hit = []
+        for ev in r.events:
+            if ev.kind == 'store':
+                for p_ in param_roots(ev.data[3]) - {'self'}:
+                    hit.append(f"{p_} (stored into at line {ev.lineno})")
+        for c, _, n in r.calls:
+            callee = ctx.prog.funcs.get(c[1])
+            if callee is None or not ctx.eff.mutates.get(c[1]):
+                continue
+            kw = dict(c[3])
+            for pname in ctx.eff.mutates[c[1]]:
+                arg = kw.get(pname)
+                if arg is not None:
+                    for p_ in param_roots(arg) - {'self'}:
+                        hit.append(f"{p_} (handed to {callee.name}({pname}=), which writes into it, line {n.lineno})")
+        ctx.check(not hit, 'R08.3/fit-arguments-unchanged', f.construct('arguments'), "no array rooted in an argument of fit() is written to, directly or by a callee",
+                  "fit() writes into its caller's array: " + "; ".join(sorted(set(hit))) + " - a repeated fit with the same inputs starts from a changed state", f.where())
     # program attributes written during a locus
     reach = ctx.eff.reachable(BASE + 'call_locus')
     bad = []
